@@ -23,7 +23,7 @@ RULE = (
     "are counted, trivial"
 )
 ASSUMPTIONS = [
-    "keys the encoder documents as the caller's responsibility (wavelet_index_ho, dwt_depth_ho, matrix values, qindex, total_slice_bytes, slice_size_scaler, custom dimension/range values) always admit the configured value (DESIGN section 7 item 3)",
+    "keys the encoder documents as the caller's responsibility and never checks (wavelet_index_ho, dwt_depth_ho, matrix values, qindex, total_slice_bytes, slice_size_scaler) always admit the configured value (DESIGN section 7 item 3); the video-format values themselves (dimensions, rates, ratios, clean area, signal range, colour indices) may be restricted to the configured value or to another one, because the encoder's header search does check them",
     "a rejection caused by a major_version restriction *below* the version the configuration intrinsically needs is a caller conflict, counted and not judged",
 ]
 CASE_TIMEOUT_S = 120
@@ -46,6 +46,10 @@ FLAG_KEYS = [
     "custom_color_primaries_flag", "custom_color_matrix_flag", "custom_transfer_function_flag",
     "asym_transform_index_flag", "asym_transform_flag",
 ]
+VALUE_KEYS = ["frame_width", "frame_height", "frame_rate_numer", "frame_rate_denom", "pixel_aspect_ratio_numer",
+              "pixel_aspect_ratio_denom", "clean_width", "clean_height", "left_offset", "top_offset", "luma_offset",
+              "luma_excursion", "color_diff_offset", "color_diff_excursion", "color_diff_format_index", "source_sampling",
+              "color_primaries_index", "color_matrix_index", "transfer_function_index"]
 INDEX_KEYS = {"frame_rate_index": 14, "pixel_aspect_ratio_index": 6, "custom_signal_range_index": 8, "color_spec_index": 7}
 
 _st = {}
@@ -92,8 +96,9 @@ def cases(spec, ctx):
         triv = {"profile": (r["profile"], [0, 3]), "picture_coding_mode": (r["pcm"], [0, 1]), "wavelet_index": (r["wi"], list(range(7))),
                 "dwt_depth": (r["d"], [0, 1, 2, 3]), "slices_x": (r["sx"], [1, 2, 3]), "slices_y": (r["sy"], [1, 2, 3]),
                 "custom_quant_matrix": (r["qm"] is not None, [True, False])}
+        vp0 = configs.build_vp(r)
         options = [("flag", k) for k in FLAG_KEYS] + [("index", k) for k in INDEX_KEYS] + [("base", "base_video_format")] \
-            + [("triv", k) for k in triv] + [("same", "slices_have_same_dimensions")]
+            + [("triv", k) for k in triv] + [("same", "slices_have_same_dimensions")] + [("vpval", k) for k in VALUE_KEYS]
         ncells = rng.choice([0, 1, 1, 2, 2, 3, 3, 4, 5, 7])
         for kind, k in rng.sample(options, ncells):
             if kind == "flag":
@@ -118,11 +123,42 @@ def cases(spec, ctx):
                     table[k] = ["set", [v]]
                 else:
                     table[k] = ["set", [rng.choice([x for x in dom if x != v])]]
+            elif kind == "vpval":
+                # a value of the video format itself: the column admits exactly the configured value, or exactly
+                # another one (then only a base-format default or a preset can still express the format)
+                v = int(vp0[k])
+                if rng.random() < 0.6:
+                    table[k] = ["set", [v]]
+                else:
+                    table[k] = ["set", [v + rng.choice([1, 2, 7])]]
             else:
                 table[k] = ["set", [rng.choice([True, False])]]
         if rng.random() < 0.3:
             table["major_version"] = ["set", [rng.choice([1, 2, 3])]]
-        yield {"recipe": r, "table": table, "pattern": rng.randrange(len(PATTERNS))}
+        case = {"recipe": r, "table": table, "pattern": rng.randrange(len(PATTERNS))}
+        if rng.random() < 0.15:
+            # sibling encodes; the targeted shape: same luma size/transform/slicing, other chroma sampling, under a
+            # column that demands equally sized slices (true for one of the two only)
+            if rng.random() < 0.5:
+                r.update({"w": rng.choice([12, 20]), "h": 8, "d": 1, "dh": 0, "wih": r["wi"], "sx": 2, "sy": 1, "cdf": 0, "fsc": 0})
+                for kk in ("cw", "ch", "lo", "to"):
+                    r.pop(kk, None)
+                if not configs.has_default_matrix(r["wi"], r["wih"], 1, 0):
+                    r["qm"] = configs.random_matrix(rng, 1, 0)
+                elif r["qm"] is not None:
+                    r["qm"] = configs.random_matrix(rng, 1, 0)
+                table["slices_have_same_dimensions"] = ["set", [True]]
+                for kk in ("slices_x", "slices_y", "dwt_depth"):
+                    table.pop(kk, None)
+                sibs = [configs.sibling(rng, r, "cdf")]
+            else:
+                sibs = [configs.sibling(rng, r) for _ in range(rng.choice([1, 2]))]
+            for sb in sibs:
+                sb["level"] = r["level"]
+            if rng.random() < 0.5:
+                case["recipe"], sibs = sibs[0], [r] + sibs[1:]
+            case["siblings"] = sibs
+        yield case
 
 
 def install(level, table, pattern):
@@ -202,13 +238,29 @@ def witness_alternative_header(cf, seq, limit=300):
 
 
 def run_case(case, ctx):
+    table = case["table"]
+    try:
+        install(case["recipe"]["level"], table, PATTERNS[case["pattern"]])
+        # the recipe and, right after it under the same installed table, its siblings (one attribute changed):
+        # whatever the encoder remembers between encodes under too coarse a key shows in the sibling's verdict
+        for i, r in enumerate([case["recipe"]] + list(case.get("siblings", []))):
+            if i:
+                ctx.count("sibling_encodes")
+            _judge_recipe(case, r, table, jsonx.key_hash([case, i]), ctx)
+    finally:
+        restore()
+        from vc2_conformance.level_constraints import LEVEL_CONSTRAINTS
+
+        if len(LEVEL_CONSTRAINTS) != len(_st["orig_c"]) or any(a is not b for a, b in zip(LEVEL_CONSTRAINTS, _st["orig_c"])):
+            ctx.inconclusive_note("level tables not restored (canary)")
+    if ctx.rng.random() < 0.002:
+        ctx.sample(case)
+
+
+def _judge_recipe(case, r, table, key, ctx):
     from vc2_conformance.encoder import make_sequence, UnsatisfiableCodecFeaturesError
 
-    r = case["recipe"]
-    table = case["table"]
-    key = jsonx.key_hash(case)
-    try:
-        install(r["level"], table, PATTERNS[case["pattern"]])
+    if True:
         cf = configs.build_cf(r)
         vp = cf["video_parameters"]
         pics = configs.build_pictures(r, vp)
@@ -278,14 +330,6 @@ def run_case(case, ctx):
                           detail=expl)
         else:
             ctx.violation("encoder-output-rejected:" + v.exc_class, "validator rejects encoder output under the same level definition", detail=expl)
-    finally:
-        restore()
-        from vc2_conformance.level_constraints import LEVEL_CONSTRAINTS
-
-        if len(LEVEL_CONSTRAINTS) != len(_st["orig_c"]) or any(a is not b for a, b in zip(LEVEL_CONSTRAINTS, _st["orig_c"])):
-            ctx.inconclusive_note("level tables not restored (canary)")
-    if ctx.rng.random() < 0.002:
-        ctx.sample(case)
 
 
 def _explain(e):
